@@ -95,6 +95,11 @@ def gen_model(rng: Prng, n: int) -> dict:
         if t.get("grid"):
             t2["grid"] = True
         t = t2
+    if rng.chance(0.15):
+        # extra per-node columns (eswc-style): part of the tree's storage like any other column
+        t["x_level"] = [float(rng.randint(0, 9)) for _ in range(n)]
+        if rng.chance(0.4):
+            t["x_score"] = [rng.randint(-5, 5000) for _ in range(n)]
     return t
 
 
@@ -142,7 +147,7 @@ def gen_step(rng: Prng) -> dict:
                 "what": rng.choice(["branches", "paths", "tips", "furcations", "length", "traverse", "children",
                                     "segments", "node_subtree", "is_tip", "neurites"])}
     if k == "edit":
-        return {"k": "edit", "t": t, "node": rng.below(64), "col": rng.choice(["x", "y", "z", "r", "type"]),
+        return {"k": "edit", "t": t, "node": rng.below(64), "col": rng.choice(["x", "y", "z", "r", "type", "extra"]),
                 "val": rng.randint(-9, 99), "via": rng.choice(["node", "ndata", "getitem"])}
     if k == "cancel":
         return {"k": "cancel", "t": t, "op": rng.choice(["cut_enter", "cut_leave", "short_tip", "traverse"]),
@@ -190,17 +195,26 @@ def generate(rng: Prng, tier: str) -> dict:
             st["spec"] = copy.deepcopy(earlier[-1]["spec"])
             st["t"] = -1
     dp = rng.stream("deep")
-    if dp.chance(0.012):
+    if dp.chance(0.02):
         # "starting from all well-formed trees": one run in ~80 starts from a tree of 1100-2400 nodes whose depth is
         # at least a third of that (an operation that recurses per node, or is quadratic in the node count, shows
         # only there), with a short program whose node arguments range over the whole tree
-        n = dp.randint(1100, 2400)
+        n = dp.randint(1100, 2400) if dp.chance(0.6) else dp.randint(4097, 7000)
         t = tree_model.gen_tree(dp, n, dp.choice(["chain", "stemmed", "stemmed", "caterpillar"]), wild=False,
                                 types=[0, 1, 2, 2, 3, 3, 3, 4, 5])
         t["type"][0] = dp.choice([1, 1, 3])
         trees = [t]
         steps = [gen_step(dp) for _ in range(dp.randint(2, 5))]
         for st in steps:
+            if st["k"] == "apply" and st["op"] != "transform" and dp.chance(0.7):
+                # every operation kind equally often on big trees (the ordinary mix favours transforms and cat_tree)
+                st["op"] = dp.choice(["sort_tree", "get_subtree", "to_subtree", "cut_enter", "cut_leave", "cut_none",
+                                      "redirect", "cat", "copy", "roundtrip", "roundtrip"])
+                st.setdefault("n", dp.below(1 << 20))
+                st.setdefault("rm", [dp.below(1 << 20) for _ in range(dp.below(4))])
+                st.setdefault("sort", dp.chance(0.5))
+                st.update({k: st.get(k, dp.below(1 << 20)) for k in ("t2", "n1", "n2")})
+                st.setdefault("translate", dp.chance(0.5))
             for key in ("n", "n1", "n2", "node"):
                 if key in st and st[key] != 0:
                     st[key] = dp.below(1 << 20)
@@ -349,6 +363,8 @@ def apply_op(step: dict, pool: list, cache: dict):
         if pool[tj].get("relaxed") is not None:
             tj = ti
         tree2 = pool[tj]["tree"]
+        if set(tree.ndata) != set(tree2.ndata):
+            return "cat_tree", sorted({ti, tj}), lambda: None  # different column sets: not an admissible pair
         n1, n2 = step["n1"] % n, step["n2"] % len(tree2)
         tr = step["translate"]
         return ("cat_tree", sorted({ti, tj}), lambda: cat_tree(tree, tree2, n1, n2, translate=tr))
@@ -447,11 +463,18 @@ def execute(program: dict) -> dict:
                 tree = pool[ti]["tree"]
                 i = step["node"] % len(tree)
                 col, val = step["col"], step["val"]
+                via = step["via"]
+                if col == "extra":
+                    # an extra per-node column if this tree carries one (written in the column itself), else x
+                    ex = sorted(k for k in tree.ndata if k not in common.COLS)
+                    col, via = (ex[val % len(ex)], "ndata") if ex else ("x", via)
+                    if ex:
+                        world.probe("c03.edit_of_an_extra_column")
                 if col == "type":
                     val = abs(val) % 8  # SWC types are non-negative
-                if step["via"] == "node":
+                if via == "node":
                     setattr(tree.node(i), col, val)
-                elif step["via"] == "getitem":
+                elif via == "getitem":
                     setattr(tree[i], col, val)
                 else:
                     tree.ndata[col][i] = val
